@@ -345,7 +345,7 @@ def copy_copy(interp, v):
     if isinstance(v, PyDict):
         return PyDict(v.pairs)
     if isinstance(v, PyDeque):
-        return PyDeque(v.items)
+        return PyDeque(v._items, v.rest)
     if isinstance(v, BytesV):
         return BytesV(list(v.rope), v.kind) if v.kind == "bytearray" else v
     return v
@@ -374,6 +374,12 @@ def copy_deepcopy(interp, v, memo=None):
         n = PyDict()
         memo[id(v)] = n
         n.pairs = [(copy_deepcopy(interp, k, memo), copy_deepcopy(interp, x, memo)) for k, x in v.pairs]
+        return n
+    if isinstance(v, PyDeque):
+        n = PyDeque()
+        memo[id(v)] = n
+        n._items = [copy_deepcopy(interp, x, memo) for x in v._items]
+        n.rest = v.rest
         return n
     if isinstance(v, tuple):
         return tuple(copy_deepcopy(interp, x, memo) for x in v)
